@@ -5,7 +5,7 @@ cd /verif
 for d in seeded/*/; do
   name=$(basename $d); prop=${name%%-*}; slug=${name#*-}
   if ! git -C /repo diff --quiet; then echo "/repo dirty"; exit 3; fi
-  git -C /repo apply $d/patch.diff || { echo "SKIP $name (patch does not apply)"; continue; }
+  git -C /repo apply /verif/${d}patch.diff || { echo "SKIP $name (patch does not apply)"; continue; }
   rm -f out/replay/$prop-*.json
   ./check $prop quick > out/regress-$name.log 2>&1; rc=$?
   git -C /repo checkout -- . && git -C /repo clean -fdq -e target
